@@ -311,6 +311,10 @@ func Coordinate(c *Ctx, ck *Check) int {
 		viols = append(viols, agg.violations...)
 	}
 	// classify
+	outDir := c.VerifDir
+	if o := os.Getenv("VERIF_OUT"); o != "" {
+		outDir = o // used only when trying the checks against mutants (never by registered commands)
+	}
 	known := loadKnown(filepath.Join(c.VerifDir, "known_findings.txt"))
 	seen := map[string]bool{}
 	exit := 0
@@ -327,7 +331,7 @@ func Coordinate(c *Ctx, ck *Check) int {
 		}
 		nviol++
 		h := sha1.Sum([]byte(v.Key))
-		dir := filepath.Join(c.VerifDir, "replays", c.ID)
+		dir := filepath.Join(outDir, "replays", c.ID)
 		os.MkdirAll(dir, 0755)
 		path := filepath.Join(dir, fmt.Sprintf("%x.json", h[:6]))
 		rp := map[string]interface{}{"property": c.ID, "key": v.Key, "desc": v.Desc, "replay": v.Replay,
@@ -366,8 +370,8 @@ func Coordinate(c *Ctx, ck *Check) int {
 		"coverage": cov, "assumptions": ck.Assumptions, "wall_s": time.Since(start).Seconds(), "violations": nviol,
 	}
 	b, _ := json.MarshalIndent(ev, "", " ")
-	os.MkdirAll(filepath.Join(c.VerifDir, "evidence"), 0755)
-	os.WriteFile(filepath.Join(c.VerifDir, "evidence", c.ID+".json"), b, 0644)
+	os.MkdirAll(filepath.Join(outDir, "evidence"), 0755)
+	os.WriteFile(filepath.Join(outDir, "evidence", c.ID+".json"), b, 0644)
 	fmt.Printf("%s %s: cases=%d evaluations=%v violations=%d exhaustive=%v wall=%.1fs\n", c.ID, c.Tier, total, cov["evaluations"], nviol, !capped, time.Since(start).Seconds())
 	return exit
 }
